@@ -11,10 +11,20 @@
  * stated in every evidence file (not an unwinding bound) */
 #define VERIF_MAXOBJ ((size_t)1 << 40)
 
-extern size_t g_malloc_calls, g_realloc_calls, g_free_calls;
-extern size_t g_last_req;  /* size of the most recent malloc/realloc request */
-extern bool g_refused;     /* some request was refused */
-extern size_t g_live;      /* net number of live blocks obtained through the model (exact accounting: leaks) */
+/* one struct = one assigns target (DFCC's frame-inclusion checks are quadratic in the number of targets) */
+struct verif_alloc_ghost {
+  size_t malloc_calls, realloc_calls, free_calls;
+  size_t last_req; /* size of the most recent malloc/realloc request */
+  size_t live;     /* net number of live blocks obtained through the model (exact accounting: leaks) */
+  bool refused;    /* some request was refused */
+};
+extern struct verif_alloc_ghost g_a;
+#define g_malloc_calls g_a.malloc_calls
+#define g_realloc_calls g_a.realloc_calls
+#define g_free_calls g_a.free_calls
+#define g_last_req g_a.last_req
+#define g_live g_a.live
+#define g_refused g_a.refused
 extern bool g_alloc_forbidden; /* set by "allocates nothing" proofs: any allocator call fails an obligation */
 
 size_t nondet_size_for_live(void);
@@ -24,7 +34,7 @@ void v_free(void *p);
 
 /* called first thing in every harness body (DFCC havocs non-const statics) */
 /* the ghost variables every allocating contract lists in its frame */
-#define ALLOC_GHOSTS g_malloc_calls, g_realloc_calls, g_free_calls, g_last_req, g_refused, g_live
+#define ALLOC_GHOSTS g_a
 
 #define VERIF_ALLOC_RESET()                                          \
   do {                                                               \
